@@ -11,7 +11,7 @@
    op_nojar excludes only SetCookieJar without a factory (the documented shared jar);
    op_api excludes appending to the wrapper lists behind WrapRoundTrip's back (no API does). *)
 From Coq Require Import List Arith Bool.
-From ReqV Require Import Model.Settings Gen.CloneTable Proofs.SettingsHeap Proofs.SettingsValue Proofs.SettingsSim Proofs.C19Top.
+From ReqV Require Import Model.Settings Model.ReExec Gen.CloneTable Proofs.SettingsHeap Proofs.SettingsValue Proofs.SettingsSim Proofs.ReExecProofs Proofs.C19Top.
 Import ListNotations.
 
 (* the Clone code, as read from the source by gosync, deep-copies every reference the model tracks,
@@ -130,6 +130,43 @@ Theorem C19_pinned_dump_clone_refuted :
   probe (run go_grow8 unlinked_tbl witness_dump init_state) 1 <> vprobe (vrun witness_dump []) 1.
 Proof. exact pinned_dump_refuted. Qed.
 Print Assumptions C19_pinned_dump_clone_refuted.
+
+(* ---------- one Request object executed again (Model/ReExec.v: the prologue of Request.do) ---------- *)
+(* Request.do starts with unmergeClientSettings, which has no fast path around its resets (from the source) *)
+Theorem C19_reexec_prologue : gen_prologue = good_prologue.
+Proof. reflexivity. Qed.
+Print Assumptions C19_reexec_prologue.
+
+(* for EVERY history of one Request object - request-level setters, executions under any client settings with
+   any retry budget and any number of failed attempts - every attempt of the next execution carries exactly
+   the request-level cookies followed by the client's cookies of that moment, once *)
+Theorem C19_reexec_cookies_every_attempt : forall h c b f,
+  Forall (fun s => snd (fst s) = q_cookies (fresh_with h) ++ c_cookies c)
+         (snd (rexec gen_prologue c b f (hrun gen_prologue h rq0))).
+Proof. exact reexec_cookies_every_attempt. Qed.
+Print Assumptions C19_reexec_cookies_every_attempt.
+
+(* ... and the retry budget is the request's own again, whatever happened in earlier executions *)
+Theorem C19_reexec_attempts : forall h c b f,
+  length (snd (rexec gen_prologue c b f (hrun gen_prologue h rq0))) = S (Nat.min f b).
+Proof. exact reexec_attempts. Qed.
+Print Assumptions C19_reexec_attempts.
+
+(* execution k of one Request object = execution 1 of a fresh request with the same request-level settings,
+   under the client settings of that moment (cookies of every attempt, number of attempts) *)
+Theorem C19_reexec_as_fresh_cookies_and_attempts : forall h c b f,
+  map (fun s => snd (fst s)) (snd (rexec gen_prologue c b f (hrun gen_prologue h rq0))) =
+  map (fun s => snd (fst s)) (snd (rexec gen_prologue c b f (fresh_with h))).
+Proof. exact reexec_as_fresh_cookies_and_attempts. Qed.
+Print Assumptions C19_reexec_as_fresh_cookies_and_attempts.
+
+(* a fast path that returns before the resets when the previous execution merged nothing is refuted *)
+Theorem C19_reexec_fastpath_refuted :
+  let h := [HExec bare_client 1 1] in
+  map (fun s => snd (fst s)) (snd (rexec fast_prologue cookie_client 1 1 (hrun fast_prologue h rq0))) = [[]] /\
+  map (fun s => snd (fst s)) (snd (rexec good_prologue cookie_client 1 1 (hrun good_prologue h rq0))) = [[5]; [5]].
+Proof. exact fastpath_refuted. Qed.
+Print Assumptions C19_reexec_fastpath_refuted.
 
 Example C19_nonvacuous :
   Forall op_api witness /\ Forall op_nojar witness /\
